@@ -11,6 +11,9 @@ CLAIMS = {
  "C17": ("All statements of the property are theorems for every size n, every index vector and every payload: new_ok_iff_bijection, new_error_cases, into_spec, inverse_spec, inverse_inverse, apply_inverse_undoes, inPlace_eq_into (cycle-following terminates and equals the gather), matrix_mulVec, transform_spec, transform_eq_P_A_Pt. The model is tied to src/permutation.rs by running both on all n^n index vectors (n<=5 quick, n<=6 thorough) and random larger ones; the property itself is also evaluated on the implementation's outputs.",
          "Trusted: Lean kernel + propext/Quot.sound/Classical.choice; hand-written model lean/Q1t/Model/Perm.lean validated by differential run (not by translation); ndarray indexing/select/dot assumed to be array access; the fuel of the in-place loop is proved sufficient.",
          "DESIGN.md §5 C17", TECH),
+ "C01": ("Proved (Lean, any commutative ring): the multinomial law of a range-based sampler — the N-shot generating function is the N-th power of the single-shot one (histogram_gf_abstract); the concrete law for the simulator model on the fragment F (no peek/peek_all/reset_all, stabilizer: no reset) and kernel-checked negative witnesses for the listed defects are being added to Q1t/Props/C01.lean and are listed in the evidence once present. The range-sampler model is tied to the code by re-executing every traced operation of the real simulator from its logged random draws (draw distribution parameters compared), and the implementation's histograms and 2-shot joint distributions are tested against the exact Born distribution of an independent reference semantics.",
+         "PARTIAL: the law is not true of the pinned code outside F (known findings D2-D5); exact Binomial/WeightedIndex sampling by rand/rand_distr and f64 rounding are assumed; statistical tests support model validation, they are not the proof.",
+         "DESIGN.md §5 C01", TECH),
 }
 NOT_YET = "check under construction in this round (not yet claimed)"
 
@@ -30,7 +33,7 @@ for p in props:
             "level_note": note,
             "technique": tech,
         })
-hooks_commits = ["3c322e9"]
+hooks_commits = ["3c322e9", "ab5bd86"]
 m = {
  "version": 1,
  "setup_cmd": "bash tools/setup.sh",
